@@ -35,6 +35,7 @@ def handleApi : Handler := fun st op args =>
   -- `MinimaxAI.Evaluate` with the default weights: the value of `ai.MakeEvaluator(size, nil)` (C18's `eval`), whatever the
   -- engine was asked before
   | "evalmm", [ptok] => some (st, withPos ptok fun p => fmtRInt (evaluateDefault p.c p))
+  | "evalmm", [ptok, _] => some (st, withPos ptok fun p => fmtRInt (evaluateDefault p.c p))
   -- storage is invisible in the model (C09): `movepre2` is `move` of the good move, `overstack` the verdict of the
   -- position after m1, m2
   | "movepre2", [ptok, _mfail, mtok, _dirt] =>
